@@ -409,6 +409,10 @@ func pkgOf(fn *ssa.Function) *types.Package {
 		if f.Pkg != nil {
 			return f.Pkg.Pkg
 		}
+		// an instance of a generic function belongs to the package of the generic
+		if o := f.Origin(); o != nil && o.Pkg != nil {
+			return o.Pkg.Pkg
+		}
 	}
 	return nil
 }
